@@ -236,7 +236,7 @@ impl Property for P {
     }
     fn cases(tier: Tier) -> u64 {
         match tier {
-            Tier::Quick => 300_000,
+            Tier::Quick => 1_200_000,
             Tier::Thorough => 16_000_000,
         }
     }
@@ -258,4 +258,11 @@ impl Property for P {
             vec![("ends_in_hyphen", 0.02), ("multi_word", 0.5)]
         }
     }
+}
+
+pub fn decode(data: &[u8]) -> Case {
+    let mut r = crate::fuzzdec::Reader::new(data);
+    let mode = r.u8();
+    let sep = if crate::case::FULL && mode & 2 == 2 { Sep::Unicode } else { Sep::Ascii };
+    Case { line: crate::fuzzdec::text(mode, r.rest()), sep }
 }
